@@ -5,7 +5,7 @@
 //!   at every step   dropped <= created - in_flight        (nothing inside the buffer has been destroyed)
 //!   after draining  dropped == created                    (nothing leaked, nothing destroyed twice)
 //!   zstprobe <seed> <count>   ->  one line `ok histories=<n> steps=<m>` or `MISMATCH <history> : <what>`; exit code 1 on mismatch
-use mutringbuf::{ConcurrentHeapRB, ConcurrentStackRB, HeapSplit, LocalHeapRB, LocalStackRB, StackSplit};
+use mutringbuf::{ConcurrentHeapRB, ConcurrentStackRB, HeapSplit, LocalHeapRB, LocalStackRB, MRBIterator, StackSplit};
 use std::cell::Cell;
 
 thread_local! { static CREATED: Cell<usize> = Cell::new(0); static DROPPED: Cell<usize> = Cell::new(0); }
@@ -22,6 +22,12 @@ impl Rng { fn next(&mut self, n: u64) -> u64 { self.0 = self.0.wrapping_mul(6364
 macro_rules! session {
     ($prod:ident, $cons:ident, $len:expr, $rng:ident, $hist:ident, $steps:ident) => {{
         let mut inflight = 0usize;
+        // C18 for zero-sized items: the buffer has the requested length and starts empty
+        if $prod.buf_len() != $len || $prod.available() != $len - 1 || $cons.available() != 0 {
+            println!("MISMATCH {}: a buffer of zero-sized items requested with length {} has length {} (producer availability {}, consumer availability {})",
+                     $hist, $len, $prod.buf_len(), $prod.available(), $cons.available());
+            std::process::exit(1);
+        }
         let n = 4 + $rng.next(24);
         let mut bad: Option<String> = None;
         for _ in 0..n {
